@@ -33,26 +33,24 @@ def main_product(tier):
         'nphases': [1, 2] if quick else [1, 2, 3],
         'site': ['bulk', 'grain boundaries'] if quick else ['bulk', 'dislocations', 'grain boundaries', 'grain edges', 'grain corners'],
         'it': ['euler', 'rk4'],
-        'temp': ['iso', 'heat', 'cool'] if quick else ['iso', 'heat', 'cool', 'hrh', 'updown', 'slowheat'],
+        'temp': ['iso', 'heat', 'cool'] if quick else ['iso', 'heat', 'cool', 'hrh', 'updown'],
         'precdiff': ['inf', 'none'],
     }
     if not quick:
         levels['vm'] = [0.8, 1.3]
-        levels['split'] = [1, 3]
     return _mk(levels, {'tf': 20.0, 'constraints': {'dtScale': 0.05}, 'max_steps': 8000})
 
 
 def second_product(tier):
-    """molar-volume ratio x solve split x remaining site types (quick only; thorough has them in the main product)"""
-    if tier != 'quick':
-        return []
+    """molar-volume ratio x solve split (1 or 3 consecutive solve calls) x site types"""
+    quick = tier == 'quick'
     levels = {
         'system': ['bin', 'tern'],
         'vm': [0.8, 1.3],
         'split': [1, 3],
         'it': ['euler', 'rk4'],
-        'temp': ['iso', 'hrh'],
-        'site': ['dislocations', 'grain corners'],
+        'temp': ['iso', 'hrh'] if quick else ['iso', 'hrh', 'heat', 'slowheat'],
+        'site': ['dislocations', 'grain corners'] if quick else ['bulk', 'dislocations', 'grain boundaries', 'grain edges', 'grain corners'],
     }
     return _mk(levels, {'tf': 20.0, 'constraints': {'dtScale': 0.05}, 'max_steps': 8000})
 
